@@ -205,9 +205,18 @@ def main(ctx):
     # typed command classes (C09 generator), encoding oracle only
     typed = c09.collect_encoding(ctx, PID, RULE)
     col.merge(typed)
+    # two threads serialising their own messages at the same time (fresh interpreter per scenario): every dump of a thread's message is
+    # the same byte string, whichever line the other thread is parked at
+    dumps = [c["_dumps"] for c in common.first_use_sweep(col, "c01", "dump() is the message's own encoding, whatever other threads serialise meanwhile")]
+    for k in (0, 1):
+        seen = {d[k] for d in dumps}
+        if len(seen) != 1:
+            col.record({"kind": "first-use", "workload": "c01", "compare": "across-variants"},
+                       [V("dump() is the message's own encoding, whatever other threads serialise meanwhile", "first-use/c01/differs-between-schedules",
+                          f"thread {k}: {len(seen)} different encodings of one message: {[str(x)[:80] for x in seen]}")], nontrivial=True, classes=["first-use-concurrent"])
     for path, rec in common.load_replays(PID):
         col.record(rec["case"], run_case(rec["case"]), nontrivial=True, classes=["replay"])
-    ctx.required_classes = ["padded", "vendor", "nested", "depth>=3", "same-name-twice", "generic", "vendor+padded",
+    ctx.required_classes = ["first-use-parked-mid-call", "padded", "vendor", "nested", "depth>=3", "same-name-twice", "generic", "vendor+padded",
                             "nested+padded", "res0", "res1", "res2", "res3", "sweep", "typed", "time-under-non-default-tz"]
     ctx.assumptions = ["in-domain values per class as tabled in vf/gens.py (DESIGN C01); constructions the library refuses "
                        "are counted as discards, not judged", "reference dictionary ref/avp_dictionary.json supplies code/vendor/default flags"]
